@@ -66,6 +66,12 @@ pub struct Cfg5 {
     pub handle_qos_after_disconnect: Option<u8>,
     /// write buffer high watermark (0 = library default)
     pub write_hw: usize,
+    /// seconds the peer has to complete CONNECT (0 = disabled)
+    #[serde(default)]
+    pub connect_timeout: u16,
+    /// frame read rate: (timeout s, max timeout s, bytes per timeout)
+    #[serde(default)]
+    pub frame_read_rate: Option<(u16, u16, u32)>,
     /// server: wrap the publish handler in `v5::Router` with resources
     /// "t/a", "t/{x}" and a default; client: `resource()` routes
     pub router: bool,
@@ -93,6 +99,8 @@ impl Default for Cfg5 {
             max_payload_buffer: 32 * 1024,
             handle_qos_after_disconnect: None,
             write_hw: 0,
+            connect_timeout: 0,
+            frame_read_rate: None,
             router: false,
             hs: Hs5::default(),
             no_retain: false,
@@ -115,8 +123,11 @@ impl Cfg5 {
             .set_min_chunk_size(self.min_chunk_size)
             .set_max_payload_buffer_size(self.max_payload_buffer)
             .set_handle_qos_after_disconnect(self.handle_qos_after_disconnect.map(conv::qos));
-        m = m.set_connect_timeout(Seconds::ZERO);
+        m = m.set_connect_timeout(Seconds(self.connect_timeout));
         let mut io = IoConfig::new().set_keepalive_timeout(Seconds::ZERO).set_disconnect_timeout(Seconds(1));
+        if let Some((t, mx, rate)) = self.frame_read_rate {
+            io = io.set_frame_read_rate(Seconds(t), Seconds(mx), rate);
+        }
         if self.write_hw != 0 {
             io = io.set_write_buf(self.write_hw, self.write_hw / 4, 0).set_write_buf_threshold(0);
         }
